@@ -303,9 +303,9 @@ class FuzzyWeightedUnion(SameArrayShapeMixin, Command):
 
         result = arrays[0] * weights[0]
         for weight, arr in zip(weights[1:], arrays[1:]):
-            result += arr * weight
+            result = result + arr * weight
 
-        result /= sum(weights)
+        result = result / sum(weights)
 
         return insure_fuzzy(result, FUZZY_MIN, FUZZY_MAX)
 
